@@ -83,6 +83,9 @@ func TestC04(t *testing.T) {
 		// one history in four lets the peers choose equal CP SEIDs, so that a SEID-0 answer
 		// can only be attributed by peer address
 		gc.SharedCP = rapid.IntRange(0, 3).Draw(rt, "sharedcp") == 0
+		// one history in four has Modifications carrying a Node ID - another node's (the session changes hands) or the owner's
+		// own (nothing changes): re-association must still end exactly the sessions of the node named
+		gc.Takeover = rapid.IntRange(0, 3).Draw(rt, "takeover") == 0
 		c := sessmodel.Case{Ops: sessmodel.Gen(rt, gc), Refuse: sessmodel.GenRefuse(rt)}
 		r := sessmodel.Run(c, or)
 		account(c, r)
